@@ -3,24 +3,27 @@
 (* memo-replay, memo-free) must be a behaviour of KeyHashMemo.tla.  Every `.pre` line is the grant   *)
 (* of the deterministic scheduler immediately before that atomic operation; `gh.ret.post` carries    *)
 (* 1 if the value get_hash() returned equals the reference hash of the key, else 0.                  *)
-EXTENDS KeyHashMemo, Json, IOUtils, TLCExt, Sequences
+EXTENDS KeyHashMemoEq, Json, IOUtils, TLCExt, Sequences
 VARIABLE l
 Rec == ndJsonDeserialize(IOEnv.TRACE)
-tvars == <<vars, l>>
+tvars == <<allvars, l>>
 Ev == Rec[l].ev
 T == Rec[l].p
 A == Rec[l].a
 Step == l' = l + 1
-Obs(cond) == cond /\ Step /\ UNCHANGED vars
+Obs(cond) == cond /\ Step /\ UNCHANGED allvars
+(* a step of the memo part leaves the comparers alone *)
+M(act) == act /\ Step /\ UNCHANGED cvars
 AsVal(x) == IF x = 1 THEN HV ELSE 0
 
 Reset(kind) ==
   /\ hashed' = (kind = "built") /\ hash' = (IF kind = "built" THEN HV ELSE 0)
-  /\ pc' = [t \in Threads |-> IF t \in Getters THEN "lh" ELSE IF t \in Cloners THEN "c1" ELSE "q0"]
+  /\ pc' = [t \in Threads |-> IF t \in Getters THEN "lh" ELSE "c1"]
   /\ cnt' = [t \in Threads |-> 0]
   /\ ret' = [t \in Threads |-> None]
   /\ ch' = [t \in Cloners |-> FALSE] /\ cv' = [t \in Cloners |-> 0]
   /\ retok' = TRUE
+  /\ qpc' = [t \in Comparers |-> "q0"] /\ qcnt' = [t \in Comparers |-> 0]
   /\ pk' = [t \in Comparers |-> "equal"] /\ cl' = [t \in Comparers |-> 0]
   /\ eqres' = [t \in Comparers |-> None] /\ cmpres' = [t \in Comparers |-> None]
   /\ eqok' = TRUE
@@ -30,7 +33,7 @@ CloneAtomic(t) ==
   /\ t \in Cloners /\ pc[t] = "c1"
   /\ ch' = [ch EXCEPT ![t] = hashed] /\ cv' = [cv EXCEPT ![t] = hash]
   /\ pc' = [pc EXCEPT ![t] = "cr"]
-  /\ UNCHANGED <<hashed, hash, cnt, ret, retok, cvars>>
+  /\ UNCHANGED <<hashed, hash, cnt, ret, retok>>
 
 (* real-parallel trials: facts that hold for every schedule *)
 FreeOK(r) == r.bad = 0 /\ r.returns > 0 /\ r.late_bad = 0
@@ -38,15 +41,15 @@ FreeOK(r) == r.bad = 0 /\ r.returns > 0 /\ r.late_bad = 0
 TraceNext ==
   /\ l <= Len(Rec)
   /\ CASE Ev = "reset"               -> Rec[l].init \in {"static", "built"} /\ Reset(Rec[l].init) /\ Step
-       [] Ev = "start.pre"           -> Obs(T \in Threads)
-       [] Ev = "key.hashed.load.pre" -> LoadHashed(T) /\ Step
-       [] Ev = "key.hash.load.pre"   -> LoadHash(T) /\ Step
-       [] Ev = "key.hash.store.pre"  -> StoreHash(T) /\ Step
-       [] Ev = "key.hashed.store.pre" -> StoreHashed(T) /\ Step
+       [] Ev = "start.pre"           -> Obs(T \in Threads \cup Comparers)
+       [] Ev = "key.hashed.load.pre" -> M(LoadHashed(T))
+       [] Ev = "key.hash.load.pre"   -> M(LoadHash(T))
+       [] Ev = "key.hash.store.pre"  -> M(StoreHash(T))
+       [] Ev = "key.hashed.store.pre" -> M(StoreHashed(T))
        [] Ev = "gh.ret.post"         -> Obs(T \in Getters /\ pc[T] = "lh" /\ cnt[T] = A[2] /\ ret[T] = AsVal(A[1]))
-       [] Ev = "c03.clone.pre"       -> CloneAtomic(T) /\ Step
-       [] Ev = "clone.ret.post"      -> CloneGetHash(T) /\ Step /\ ret'[T] = AsVal(A[1])
-       [] Ev = "c03.cmp.pre"         -> Obs(T \in Comparers /\ pc[T] = "q0")
+       [] Ev = "c03.clone.pre"       -> M(CloneAtomic(T))
+       [] Ev = "clone.ret.post"      -> M(CloneGetHash(T)) /\ ret'[T] = AsVal(A[1])
+       [] Ev = "c03.cmp.pre"         -> Obs(T \in Comparers /\ qpc[T] = "q0")
        [] Ev = "cmp.res.post"        -> /\ CompareAsCoded(T) /\ Step
                                         /\ pk'[T] = (IF A[1] = 1 THEN "equal" ELSE "control")
                                         /\ eqres'[T] = A[2] /\ A[3] = A[2]
@@ -56,7 +59,7 @@ TraceNext ==
        [] Ev = "free"                -> Obs(FreeOK(Rec[l]))
        [] OTHER -> FALSE             \* panic / livelock / stuck / unknown site
 
-TraceInit == InitFor("static") /\ l = 1
+TraceInit == InitFor("static") /\ CInitEq /\ l = 1
 TraceSpec == TraceInit /\ [][TraceNext]_tvars
 TraceAccepted ==
   LET d == TLCGet("stats").diameter IN
